@@ -10,6 +10,11 @@ CHECKS = {
    text="Theorems in coq/Properties_C08.v hold for every insertion history and every total-preorder comparator: red-black colouring, equal black height, strict search order, find correctness, duplicates add nothing (owning), height <= 2 log2(n+1); the null-grandparent branch of fixup is proved unreachable. The model is hand-written and tied to include/ipr/utility by running the extracted model and the real tree (ASan+UBSan build) on the same sequences and diffing shapes, colours, sizes, returned elements and find results after every insertion.",
    note="Trusted: Coq kernel, extraction (ExtrOcamlBasic), harness/rb_driver.cxx, g++/ASan/UBSan. Modelled, not verified: pointer surgery (as a zipper); parent links are checked on the implementation by the driver and modelled in RBHeap.v.",
    ref="DESIGN.md §6 C08"),
+ "C06": dict(
+   technique="Coq proof by computation over tables regenerated from the C++ sources (clang AST: resolved visit overloads of every accept and default hook; g++-compiled reflection probe: category code and nearest abstract base of every interface class), lifted to quantified statements; exhaustive dynamic sweep of one node per implementation class",
+   text="The domain is finite (159 leaf interface classes, 167 hooks, 158 accept instantiations) and is read off the current sources on every run, so the theorems of coq/Properties_C06.v (own category code; accept selects the class's own hook; every default hook is one call to the nearest abstract super-category; a sinks-only visitor gets exactly one call at the nearest sink; view<K> non-null iff K is the node's category; codes/classes/hooks in bijection) are re-checked against what the code says now. A driver then runs category/accept/view on a node of every implementation class and compares with the model's prediction extracted from the same tables.",
+   note="Trusted: Coq kernel, the fact extractor (clang 14 AST + reflection probe compiled by g++), extraction, harness/zoo.h coverage (reported: 159/159 categories). Virtual dispatch itself is modelled by the tables, not verified.",
+   ref="DESIGN.md §6 C06"),
 }
 
 NOT_YET = {}
